@@ -203,4 +203,9 @@ theorem pairwise_lt_bounds {J : List Rat} (hp : J.Pairwise (· < ·)) {x0 x1 : R
     · exact le_of_lt ((List.pairwise_append.1 hp).2.2 x hx' x1 (by simp))
     · simp at hx'; exact hx' ▸ le_refl _
 
+/-- nominal spacing of the shipped `J_b`/`J_f` tables: `1020/9999` truncated to 13 decimals. -/
+def h : Rat := 1020102010201 / 10 ^ 13
+/-- spacing tolerance `2·10⁻¹²` used for the shipped tables. -/
+def tol : Rat := 2 / 10 ^ 12
+
 end Lemmas.JTable
